@@ -24,8 +24,17 @@ pub enum Feat {
     V1LongParam,
     /// collection whose element type is an appendable (XCDR2) or mutable union: written as final union
     NonFinalUnionElem,
-    /// XCDR2: mutable struct with an absent member that is not the last thing in the stream
-    V2AbsentInMutable,
+    /// XCDR2: mutable struct/union below the top level, or a mutable struct with an absent member:
+    /// the reader ignores the DHEADER (does not skip the body, searches members past its end)
+    V2MutableDheaderIgnored,
+    /// XCDR1: mutable union below the top level (the reader never consumes the parameter list)
+    V1NestedMutableUnion,
+    /// XCDR1: nested mutable struct with a member id 1 (= the PID the reader takes for the sentinel)
+    V1NestedMutableId1,
+    /// XCDR1: appendable union (the reader expects a DHEADER that XCDR1 does not have)
+    V1AppendableUnion,
+    /// XCDR1: float128 member (written with 8-byte alignment, read with 16-byte alignment)
+    V1Float128,
     /// XCDR2: two member ids of one mutable struct equal modulo 65536
     V2IdsCollideMod16,
     /// XCDR2: mutable member that is a sequence of primitives wider than one byte (LC 5 used with an element count)
@@ -43,7 +52,11 @@ impl Feat {
             Feat::V1BigId => "xcdr1-member-id-needs-extended-pid",
             Feat::V1LongParam => "xcdr1-member-longer-than-65535",
             Feat::NonFinalUnionElem => "collection-of-non-final-union",
-            Feat::V2AbsentInMutable => "xcdr2-absent-member-in-mutable-struct",
+            Feat::V2MutableDheaderIgnored => "xcdr2-mutable-dheader-ignored",
+            Feat::V1NestedMutableUnion => "xcdr1-nested-mutable-union",
+            Feat::V1NestedMutableId1 => "xcdr1-nested-mutable-struct-member-id-1",
+            Feat::V1AppendableUnion => "xcdr1-appendable-union",
+            Feat::V1Float128 => "xcdr1-float128-alignment",
             Feat::V2IdsCollideMod16 => "xcdr2-member-ids-equal-mod-65536",
             Feat::V2MutablePrimSeqLc => "xcdr2-mutable-member-primitive-sequence",
             Feat::WString => "wstring",
@@ -57,7 +70,11 @@ impl Feat {
             Feat::V1BigId,
             Feat::V1LongParam,
             Feat::NonFinalUnionElem,
-            Feat::V2AbsentInMutable,
+            Feat::V2MutableDheaderIgnored,
+            Feat::V1NestedMutableUnion,
+            Feat::V1NestedMutableId1,
+            Feat::V1AppendableUnion,
+            Feat::V1Float128,
             Feat::V2IdsCollideMod16,
             Feat::V2MutablePrimSeqLc,
             Feat::WString,
@@ -92,8 +109,13 @@ impl Allowed {
                     Feat::V1BigId,
                     Feat::V1LongParam,
                     Feat::NonFinalUnionElem,
-                    Feat::V2AbsentInMutable,
+                    Feat::V2MutableDheaderIgnored,
+                    Feat::V1NestedMutableUnion,
+                    Feat::V1NestedMutableId1,
+                    Feat::V1AppendableUnion,
+                    Feat::V1Float128,
                     Feat::V2IdsCollideMod16,
+                    Feat::V2MutablePrimSeqLc,
                 ],
             },
             "C10" => Allowed { known: Feat::all().into_iter().filter(|f| *f != Feat::WString).collect() },
@@ -105,8 +127,13 @@ impl Allowed {
                     Feat::V1BigId,
                     Feat::V1LongParam,
                     Feat::NonFinalUnionElem,
-                    Feat::V2AbsentInMutable,
+                    Feat::V2MutableDheaderIgnored,
+                    Feat::V1NestedMutableUnion,
+                    Feat::V1NestedMutableId1,
+                    Feat::V1AppendableUnion,
+                    Feat::V1Float128,
                     Feat::V2IdsCollideMod16,
+                    Feat::V2MutablePrimSeqLc,
                 ],
             },
             _ => Allowed::none(),
@@ -127,6 +154,20 @@ fn uses_param_header_v1(t: &Ty) -> bool {
         Ty::Union(u) => u.ext == Ext::Mutable,
         _ => false,
     })
+}
+
+/// predicate holds for a type node strictly below the top level
+fn nested_any(ty: &Ty, p: &dyn Fn(&Ty) -> bool) -> bool {
+    let mut first = true;
+    let mut r = false;
+    ty.visit(&mut |t| {
+        if first {
+            first = false;
+        } else {
+            r |= p(t);
+        }
+    });
+    r
 }
 
 fn val_any(ty: &Ty, v: &Val, p: &mut dyn FnMut(&Ty, &Val) -> bool) -> bool {
@@ -206,12 +247,28 @@ pub fn scan(ty: &Ty, v: &Val, enc: Enc) -> Vec<Feat> {
     }) {
         f.push(Feat::NonFinalUnionElem);
     }
+    if v1 {
+        if nested_any(ty, &|t| matches!(t, Ty::Union(u) if u.ext == Ext::Mutable)) {
+            f.push(Feat::V1NestedMutableUnion);
+        }
+        if nested_any(ty, &|t| matches!(t, Ty::Struct(s) if s.ext == Ext::Mutable && s.members.iter().any(|m| m.id == 1))) {
+            f.push(Feat::V1NestedMutableId1);
+        }
+        if ty.any(&|t| matches!(t, Ty::Union(u) if u.ext == Ext::Appendable)) {
+            f.push(Feat::V1AppendableUnion);
+        }
+        if ty.any(&|t| matches!(t, Ty::Prim(Prim::F128))) {
+            f.push(Feat::V1Float128);
+        }
+    }
     if !v1 {
-        if val_any(ty, v, &mut |t, x| match (t, x) {
-            (Ty::Struct(s), Val::Struct(ms)) => s.ext == Ext::Mutable && ms.iter().any(|m| m.is_none()),
-            _ => false,
-        }) {
-            f.push(Feat::V2AbsentInMutable);
+        if nested_any(ty, &|t| matches!(t.ext(), Some(Ext::Mutable)))
+            || val_any(ty, v, &mut |t, x| match (t, x) {
+                (Ty::Struct(s), Val::Struct(ms)) => s.ext == Ext::Mutable && ms.iter().any(|m| m.is_none()),
+                _ => false,
+            })
+        {
+            f.push(Feat::V2MutableDheaderIgnored);
         }
         if ty.any(&|t| match t {
             Ty::Struct(s) if s.ext == Ext::Mutable => {
@@ -242,15 +299,48 @@ pub fn blame(feats: &[Feat], allowed: &Allowed) -> Option<Feat> {
 /// Rewrite a generated type so that none of the known trigger shapes occurs.
 pub fn sanitize(ty: &Ty, allowed: &Allowed) -> Ty {
     let mut t = ty.clone();
+    if allowed.has(Feat::V2MutableDheaderIgnored) || allowed.has(Feat::V1NestedMutableUnion) || allowed.has(Feat::V1NestedMutableId1) {
+        // no mutable aggregate below the top level
+        match &mut t {
+            Ty::Struct(s) => s.members.iter_mut().for_each(|m| demote_mutable(&mut m.ty)),
+            Ty::Union(u) => u.cases.iter_mut().filter_map(|c| c.ty.as_mut()).for_each(demote_mutable),
+            _ => {}
+        }
+    }
     // 8-byte primitives cannot coexist with XCDR1 parameter headers: alternate which one gives way
     let drop_wide = allowed.has(Feat::V1Align8AfterParam) && uses_param_header_v1(&t) && has_wide_prim(&t);
     rewrite(&mut t, allowed, drop_wide);
     t
 }
 
+fn demote_mutable(t: &mut Ty) {
+    match t {
+        Ty::Struct(s) => {
+            if s.ext == Ext::Mutable {
+                s.ext = Ext::Appendable;
+                for (i, m) in s.members.iter_mut().enumerate() {
+                    m.id = i as u32;
+                }
+            }
+            s.members.iter_mut().for_each(|m| demote_mutable(&mut m.ty));
+        }
+        Ty::Union(u) => {
+            if u.ext == Ext::Mutable {
+                u.ext = Ext::Appendable;
+            }
+            u.cases.iter_mut().filter_map(|c| c.ty.as_mut()).for_each(demote_mutable);
+        }
+        Ty::Seq(e, _) | Ty::Array(e, _) => demote_mutable(e),
+        _ => {}
+    }
+}
+
 fn rewrite(t: &mut Ty, a: &Allowed, drop_wide: bool) {
     match t {
         Ty::Prim(p) => {
+            if a.has(Feat::V1Float128) && *p == Prim::F128 {
+                *p = Prim::F64;
+            }
             if drop_wide {
                 *p = match *p {
                     Prim::I64 => Prim::I32,
@@ -286,7 +376,7 @@ fn rewrite(t: &mut Ty, a: &Allowed, drop_wide: bool) {
                         }
                     }
                 }
-                if a.has(Feat::V2AbsentInMutable) {
+                if a.has(Feat::V2MutableDheaderIgnored) {
                     for m in s.members.iter_mut() {
                         m.optional = false;
                     }
